@@ -3,12 +3,12 @@
 # while /repo itself is busy). The worktree is created on first use and left clean; remove it with
 # `git -C /repo worktree remove --force /tmp/allcheck_wt` when done.
 export GOFLAGS=-mod=mod GOPROXY=off GOSUMDB=off GOTOOLCHAIN=local PATH=/opt/veriftools/go1.26.8/bin:$PATH; unset GOWORK
-patch=$1; wt=/tmp/allcheck_wt
+patch=$1; wt=${ALLCHECK_WT:-/tmp/allcheck_wt}; bin=${OLLACHECK:-/verif/bin/ollacheck}
 [ -d $wt ] || git -C /repo worktree add --detach $wt HEAD -q || exit 2
 cd $wt || exit 2
 git checkout -q -- . ; git clean -fdq
 git apply "$patch" 2>/dev/null || { echo "PATCH-DOES-NOT-APPLY"; exit 3; }
-v=/tmp/allcheck_wt.v.$$; mkdir -p $v; cp /verif/known_findings.json /verif/anchors.json $v/
-/verif/bin/ollacheck -prop ALL -tier quick -repo $wt -verif $v -q > $v/all.log 2>&1
+v=$wt.v.$$; mkdir -p $v; cp /verif/known_findings.json /verif/anchors.json $v/
+$bin -prop ALL -tier quick -repo $wt -verif $v -q > $v/all.log 2>&1
 awk '/^=== /{p=$2} /^VIOLATION rule|^UNDECIDED|^UNRESOLVED|^LOAD-ERROR/{if(!(p in seen)){seen[p]=1; n++; print "--- " p} print substr($0,1,330)} END{print "checks raising an alarm: " n+0}' $v/all.log
 git checkout -q -- . ; git clean -fdq; rm -rf $v
